@@ -14,12 +14,24 @@ Definition ghost_action (a : action) : action :=
 Definition ghost_plan (acts : list action) : list action := map ghost_action acts.
 
 (* what the MySQL generator reads from the evolving schema: table names and, per column, name / type / nullability /
-   default *)
-Definition col_core (c : column_def) := (c_name c, c_type c, c_nullable c, c_default c).
+   default / comment; since fix N1 the MODIFY builders also read whether the column is in an auto-increment primary
+   key of its table (modify_auto_agree below) *)
+Definition col_core (c : column_def) := (c_name c, c_type c, c_nullable c, c_default c, c_comment c).
 Definition table_core (t : table_def) := (t_name t, map col_core (t_columns t)).
 Definition schema_core (s : schema) := map table_core s.
-Definition col_core_eq_dec (x y : string * column_type * bool * option default_value) : {x = y} + {x <> y}.
-Proof. repeat (apply pair_eq_dec); auto using string_dec, column_type_eq_dec, bool_dec. apply option_eq_dec, default_value_eq_dec. Defined.
+Definition col_core_eq_dec (x y : string * column_type * bool * option default_value * option string) : {x = y} + {x <> y}.
+Proof.
+  repeat (apply pair_eq_dec); auto using string_dec, column_type_eq_dec, bool_dec.
+  - apply option_eq_dec, default_value_eq_dec.
+  - apply option_eq_dec, string_dec.
+Defined.
+(* the ghost schema and the believed schema agree on "is an auto-increment key column" for the column a ModifyColumn*
+   action targets *)
+Definition modify_auto_agree (v s : schema) (a : action) : bool :=
+  match modify_target a with
+  | Some (t, c) => Bool.eqb (is_auto_col v t c) (is_auto_col s t c)
+  | None => true
+  end.
 Definition same_core_b (v s : schema) : bool :=
   dec_b (list_eq_dec (pair_eq_dec string_dec (list_eq_dec col_core_eq_dec))) (schema_core v) (schema_core s).
 
@@ -52,7 +64,7 @@ Fixpoint pend_at (s : schema) (P : pending) (acts : list action) : pending :=
 Fixpoint simp_steps_ok (v s : schema) (acts : list action) : bool :=
   match acts with
   | [] => true
-  | a :: r => (same_core_b v s && sim_proved_for v (ghost_action a)
+  | a :: r => (same_core_b v s && modify_auto_agree v s a && sim_proved_for v (ghost_action a)
                && match apply_action v (ghost_action a) with Ok _ => true | Err _ => false end
                && simp_steps_ok (step v (ghost_action a)) (step s a) r)%bool
   end.
@@ -80,7 +92,9 @@ Definition simp_kind_ok (P : pending) (v : schema) (a : action) : bool :=
   | AddConstraint t k => negb (contains_constraint k (constraints_of v t))
   | CreateTable t _ _ => match pend_of P t with [] => true | _ => false end
   | DeleteTable _ | RawSql _ => true
-  | ModifyColumnType _ _ _ _ | ModifyColumnNullable _ _ _ _ | ModifyColumnDefault _ _ _ | ModifyColumnComment _ _ _ => true
+  | ModifyColumnType t c _ _ | ModifyColumnNullable t c _ _ | ModifyColumnDefault t c _ | ModifyColumnComment t c _ =>
+      (* the column is not in a pending auto-increment primary key: the engine and the baseline agree on AUTO_INCREMENT *)
+      negb (mem_str c (auto_increment_columns (pend_of P t)))
   | RemoveConstraint t _ | DeleteColumn t _ | RenameColumn t _ _ => match pend_of P t with [] => true | _ => false end
   | RenameTable _ _ => false
   end.
